@@ -2,7 +2,8 @@
 tables are mutual inverses; nbits = floor(log2)+1."""
 ID = "C19"
 VARIANTS = ["san", "simd"]
-RULE = ("ops: nbits (all 65536 in thorough, boundary+random in quick), genopt histograms "
+RULE = ("gencs: codesize[] after the merge loop, read from the real function through the LJT_VERIF hook, against the model's array "
+        "(and, on the real array, the pseudo-symbol on the deepest level); ops: nbits (all 65536 in thorough, boundary+random in quick), genopt histograms "
         "(random, Fibonacci-like, equal counts, single symbol, near 1e9), cderive/dderive/hrt on "
         "random valid prefix-code tables, the 4 standard tables and mutated invalid tables; "
         "distinct = distinct op line, class = op name + outcome (ok / error code)")
@@ -120,6 +121,8 @@ def gen_ops(rng, tier):
     for k in (2, 3, 4, 5, 8, 16, 32, 64, 128, 200, 254, 256):
         ops.append(hist([(s, 1) for s in range(k)]))
     ops.append(hist([(s, 1) for s in range(255)]))          # D4 (see known_findings.json)
+    # the intermediate array codesize[] of the real merge loop (LJT_VERIF hook) against the model's, for every histogram above
+    ops += ["gencs" + o[len("genopt"):] for o in list(ops) if o.startswith("genopt ")]
     # ---- derived tables
     std = std_tables()
     tables = []
